@@ -226,8 +226,8 @@ func (s *composeSlice) build() {
 				return fbVal, fbErr
 			})
 			applyConds(t[3], func(e ...error) { b.HandleErrors(e...) }, func(a ...any) { b.HandleErrorTypes(a...) }, func(r int) { b.HandleResult(r) }, func(p func(int, error) bool) { b.HandleIf(p) })
-			b.OnFailure(func(e failsafe.ExecutionEvent[int]) { s.emit("fb.onFailure"+fl(e), pos, e.Attempts(), e.Executions()) }).
-				OnSuccess(func(e failsafe.ExecutionEvent[int]) { s.emit("fb.onSuccess"+fl(e), pos, e.Attempts(), e.Executions()) }).
+			b.OnFailure(func(e failsafe.ExecutionEvent[int]) { s.emit("fb.onFailure"+seenBy(e)+fl(e), pos, e.Attempts(), e.Executions()) }).
+				OnSuccess(func(e failsafe.ExecutionEvent[int]) { s.emit("fb.onSuccess"+seenBy(e)+fl(e), pos, e.Attempts(), e.Executions()) }).
 				OnFallbackExecuted(func(e failsafe.ExecutionDoneEvent[int]) { s.emit("fb.onFallbackExecuted", pos, e.Attempts(), e.Executions()) })
 			s.policies = append(s.policies, b.Build())
 			_ = b.OnFallbackExecuted(func(e failsafe.ExecutionDoneEvent[int]) { s.emit("DECOY.fb", pos, e.Attempts(), e.Executions()) }).Build()
@@ -321,8 +321,8 @@ func (s *composeSlice) exec(t []string) string {
 		}
 		b.WithDelay(time.Duration(delay))
 		s.now = t0
-		b.OnFailure(func(e failsafe.ExecutionEvent[int]) { s.emit("cb.onFailure"+fl(e), s.posOf("breaker", id), e.Attempts(), e.Executions()) }).
-			OnSuccess(func(e failsafe.ExecutionEvent[int]) { s.emit("cb.onSuccess"+fl(e), s.posOf("breaker", id), e.Attempts(), e.Executions()) }).
+		b.OnFailure(func(e failsafe.ExecutionEvent[int]) { s.emit("cb.onFailure"+seenBy(e)+fl(e), s.posOf("breaker", id), e.Attempts(), e.Executions()) }).
+			OnSuccess(func(e failsafe.ExecutionEvent[int]) { s.emit("cb.onSuccess"+seenBy(e)+fl(e), s.posOf("breaker", id), e.Attempts(), e.Executions()) }).
 			OnStateChanged(func(e circuitbreaker.StateChangedEvent) {
 				m := e.Metrics()
 				s.mu.Lock()
